@@ -18,6 +18,23 @@ def sizes_for(name, k):
     raise ValueError(name)
 
 
+# naming variants: the domain ORDER of the attributes must be what matters, never the sort order of their names
+SCRAMBLED = {'A': 'e', 'B': 'c', 'C': 'a', 'D': 'dd', 'E': 'b', 'F': 'd', 'G': 'aa', 'H': 'ca', 'I': 'z'}
+
+
+def rename(obj, naming):
+    """recursively rename attribute letters in nested lists/tuples (identity for naming == 'letters')"""
+    if naming == 'letters' or obj is None:
+        return obj
+    if isinstance(obj, str):
+        return SCRAMBLED.get(obj, obj)
+    if isinstance(obj, tuple):
+        return tuple(rename(o, naming) for o in obj)
+    if isinstance(obj, list):
+        return [rename(o, naming) for o in obj]
+    return obj
+
+
 def all_graphs(k):
     """every labelled graph on the first k attributes, as a list of edge tuples"""
     attrs = ATTRS[:k]
